@@ -55,3 +55,643 @@ def build_kq():
         return False, log, binp
     rc, out = sh("go build -o %s ./harness" % binp, cwd=KQB, timeout=600)
     return rc == 0, out, binp
+
+
+# ------------------------------------------------------------------ Coq: static theories + props (direct coqc until _CoqProject lists them)
+
+KQ_V = ["theories/KqModel.v", "theories/KqInv.v"]
+PROPS = {"C17": "props/C17.v", "C18": "props/C18.v"}
+COQC = "coqc -Q theories Fsn -Q props FsnProps -w -notation-overridden"
+
+
+def in_coqproject(f):
+    try:
+        return any(l.strip() == f for l in open(os.path.join(COQ, "_CoqProject")))
+    except OSError:
+        return False
+
+
+def coq_build(files, timeout=1500):
+    """build the given .v files (dependency order). Uses the Makefile when _CoqProject lists them, else coqc directly
+    (only when the .vo is older than the source or than an earlier file of the list). returns (ok, log)"""
+    log, rebuilt = "", False
+    for f in files:
+        src, vo = os.path.join(COQ, f), os.path.join(COQ, f + "o")
+        if not os.path.exists(src):
+            return False, log + "\nmissing " + f
+        if in_coqproject(f):
+            ok, out = coq_make([f + "o"], timeout)
+            log += out
+            if not ok:
+                return False, log
+            continue
+        stale = rebuilt or not os.path.exists(vo) or os.path.getmtime(vo) < os.path.getmtime(src)
+        if not stale:
+            continue
+        rc, out = sh("timeout %d %s %s" % (timeout, COQC, f), cwd=COQ, timeout=timeout + 30)
+        log += out
+        if rc != 0:
+            if os.path.exists(vo):
+                os.remove(vo)
+            return False, log + ('\nFile "./%s", line 0 (coqc rc=%d)' % (f, rc) if 'File "./' not in out else "")
+        rebuilt = True
+    return True, log
+
+
+def build_driver():
+    wd = os.path.join(KQB, "driver")
+    os.makedirs(wd, exist_ok=True)
+    exe = os.path.join(wd, "kqdriver")
+    srcs = [os.path.join(COQ, "theories", "KqModel.v"), os.path.join(COQ, "extract", "ExtractKq.v"), os.path.join(VERIF, "driver", "kqdriver.ml")]
+    if os.path.exists(exe) and all(os.path.getmtime(exe) >= os.path.getmtime(s) for s in srcs):
+        return True, "", exe
+    for f in os.listdir(wd):
+        os.remove(os.path.join(wd, f))
+    ok, log = build_ocaml(wd, "ExtractKq.v", ["kqdriver.ml"], "kqdriver")
+    return ok, log, exe
+
+
+# ------------------------------------------------------------------ history generator
+
+NAMES = ["a", "b", "c", "x", "l", "p", "s"]
+C17_CLAUSES = ["close-releases-all", "watchlist-user-only", "removed-not-listed", "remove-of-added-fails",
+               "deleted-file-descriptor-open", "all-removed-empty", "unaccounted-descriptor", "remove-of-unadded-succeeds"]
+C18_CLAUSES = ["names-user-spelling", "preexisting-silent", "create-once", "create-missed", "recreate", "remove-missed", "change-missed"]
+
+
+def pclean(p):
+    """filepath.Clean"""
+    absolute = p.startswith("/")
+    out = []
+    for c in p.split("/"):
+        if c in ("", "."):
+            continue
+        if c == "..":
+            if out and out[-1] != "..":
+                out.pop()
+            elif not absolute:
+                out.append("..")
+            continue
+        out.append(c)
+    if absolute:
+        return "/" + "/".join(out)
+    return "/".join(out) or "."
+
+
+def canon(p):
+    """canonical relative form of a spelling"""
+    c = pclean(p)
+    if c == "/T":
+        return "."
+    return c[3:] if c.startswith("/T/") else c
+
+
+class Gen:
+    """tracks its own picture of the tree (canonical relative path -> kind) to keep the stream mostly valid"""
+
+    def __init__(self, rng, profile, stats):
+        self.r, self.profile, self.stats = rng, profile, stats
+        self.tree = {}           # path -> 'f' | 'd' | 'p' | ('l', target)
+        self.watched = []        # spellings added
+        self.steps = []
+        self.held = False
+        self.closed = False
+
+    def dirs(self):
+        return [""] + [p for p, k in self.tree.items() if k == "d"]
+
+    def kids(self, d):
+        pre = d + "/" if d else ""
+        return [p for p in self.tree if p.startswith(pre) and "/" not in p[len(pre):] and p != d]
+
+    def paths(self, kinds=None):
+        return [p for p, k in self.tree.items() if kinds is None or (k if isinstance(k, str) else "l") in kinds]
+
+    def newname(self, d):
+        pre = d + "/" if d else ""
+        if d == "":
+            return self.r.choice(["d0", "d1", "f0", "l0", "p0"] + NAMES[:3])
+        return pre + self.r.choice(NAMES)
+
+    def spell(self, p):
+        """a spelling of the canonical path p"""
+        r = self.r.random()
+        kind = "clean"
+        s = p
+        if p and r < 0.45:
+            v = self.r.randrange(6)
+            if v == 0:
+                s, kind = "./" + p, "dot-slash"
+            elif v == 1:
+                s, kind = p + "/", "trailing-slash"
+            elif v == 2:
+                s, kind = p.replace("/", "//", 1) if "/" in p else p + "//", "double-slash"
+            elif v == 3:
+                first = p.split("/")[0]
+                s, kind = first + "/../" + p, "dotdot"
+            elif v == 4:
+                s, kind = "/T/" + p, "absolute"
+            else:
+                s, kind = "./" + p + "/.", "dot-slash-dot"
+        self.stats["spellings"][kind] = self.stats["spellings"].get(kind, 0) + 1
+        return s or "."
+
+    def emit(self, s):
+        self.steps.append(s)
+        k = " ".join(s.split()[:2]) if s.split()[0] in ("fs", "api") else s
+        self.stats["ops"][k] = self.stats["ops"].get(k, 0) + 1
+
+    def rename_tree(self, a, b):
+        for p in [q for q in self.tree if q == b or q.startswith(b + "/")]:
+            del self.tree[p]
+        for p in [q for q in self.tree if q == a or q.startswith(a + "/")]:
+            self.tree[b + p[len(a):]] = self.tree.pop(p)
+
+    def fs_step(self, valid=True):
+        r = self.r
+        dirs = self.dirs()
+        # prefer watched directories so that something happens
+        wdirs = [canon(w) for w in self.watched if self.tree.get(canon(w)) == "d"]
+        d = r.choice(wdirs) if wdirs and r.random() < 0.7 else r.choice(dirs)
+        files = [p for p in self.kids(d) if self.tree[p] == "f"]
+        anyk = self.kids(d)
+        op = r.choices(["create", "write", "trunc", "chmod", "unlink", "mkdir", "rmdir", "mkfifo", "symlink", "link", "rename", "renamedir"],
+                       [22, 12, 4, 7, 12, 6, 4, 3, 7, 0, 10, 2])[0]
+        if not valid:
+            bogus = (d + "/" if d else "") + "nosuch/" + r.choice(NAMES)
+            self.emit("fs %s %s" % (r.choice(["create", "write", "unlink", "mkdir", "rmdir", "chmod"]), bogus))
+            return
+        if op == "create":
+            p = self.newname(d)
+            if p.count("/") > 2:
+                return
+            self.emit("fs create " + p)
+            if p not in self.tree:
+                self.tree[p] = "f"
+        elif op in ("write", "trunc", "chmod"):
+            cands = files if op != "chmod" else [p for p in anyk if not isinstance(self.tree[p], tuple)]
+            if cands:
+                self.emit("fs %s %s" % (op, r.choice(cands)))
+        elif op == "unlink":
+            cands = [p for p in anyk if self.tree[p] != "d"]
+            if cands:
+                p = r.choice(cands)
+                self.emit("fs unlink " + p)
+                del self.tree[p]
+        elif op == "mkdir":
+            p = self.newname(d)
+            if p not in self.tree and p.count("/") < 2:
+                self.emit("fs mkdir " + p)
+                self.tree[p] = "d"
+        elif op == "rmdir":
+            cands = [p for p in anyk if self.tree[p] == "d" and not self.kids(p)]
+            if cands:
+                p = r.choice(cands)
+                self.emit("fs rmdir " + p)
+                del self.tree[p]
+        elif op == "mkfifo":
+            p = self.newname(d)
+            if p not in self.tree:
+                self.emit("fs mkfifo " + p)
+                self.tree[p] = "p"
+        elif op == "symlink":
+            p = self.newname(d)
+            if p in self.tree:
+                return
+            v = r.random()
+            sib = [q for q in anyk if not isinstance(self.tree[q], tuple)]
+            if v < 0.55 and sib:
+                t = r.choice(sib)
+                tgt = t.split("/")[-1] if r.random() < 0.6 else "/T/" + t
+            elif v < 0.8 and len(dirs) > 1:
+                t = r.choice([x for x in dirs if x])
+                tgt = "/T/" + t
+            else:
+                tgt = "nowhere"
+            self.emit("fs symlink %s %s" % (tgt, p))
+            self.tree[p] = ("l", tgt)
+        elif op == "link":
+            if files:
+                p = self.newname(d)
+                if p not in self.tree:
+                    self.emit("fs link %s %s" % (r.choice(files), p))
+                    self.tree[p] = "f"
+        elif op == "rename":
+            cands = [p for p in anyk if self.tree[p] != "d"]
+            if cands:
+                a = r.choice(cands)
+                d2 = d if r.random() < 0.7 else r.choice(dirs)
+                b = self.newname(d2)              # often an existing name: overwrite by rename
+                if b == a or self.tree.get(b) == "d" or b.count("/") > 2:
+                    return
+                self.emit("fs rename %s %s" % (a, b))
+                self.rename_tree(a, b)
+        elif op == "renamedir":
+            cands = [p for p in self.tree if self.tree[p] == "d"]
+            if cands:
+                a = r.choice(cands)
+                b = a + "r"
+                if b not in self.tree:
+                    self.emit("fs rename %s %s" % (a, b))
+                    self.rename_tree(a, b)
+
+    def api_step(self):
+        r = self.r
+        v = r.random()
+        if v < 0.5:
+            if r.random() < 0.12:
+                self.emit("api add " + self.spell("nosuch/" + r.choice(NAMES)))
+                return
+            pool = self.paths()
+            if not pool:
+                return
+            pref = self.paths({"d"}) or pool
+            p = r.choice(pref) if r.random() < 0.6 else r.choice(pool)
+            s = self.spell(p)
+            self.emit("api add " + s)
+            self.watched.append(s)
+        elif v < 0.85:
+            if self.watched and r.random() < 0.85:
+                w = r.choice(self.watched)
+                s = self.spell(canon(w)) if r.random() < 0.6 else w
+                self.emit("api remove " + s)
+                self.watched = [x for x in self.watched if canon(x) != canon(s)]
+            else:
+                pool = self.paths() or ["nosuch"]
+                self.emit("api remove " + self.spell(r.choice(pool)))
+        else:
+            self.emit("api list")
+
+    def generate(self, n):
+        r = self.r
+        prof = self.profile
+        # initial population before any watch
+        for _ in range(r.randrange(2, 7)):
+            self.fs_step()
+        if not self.paths({"d"}):
+            self.emit("fs mkdir d0")
+            self.tree["d0"] = "d"
+        w_api = {"mix": 0.3, "c17": 0.45, "c18": 0.15}[prof]
+        w_hold = {"mix": 0.06, "c17": 0.03, "c18": 0.1}[prof]
+        if prof == "c18":
+            d = r.choice(self.paths({"d"}))
+            s = self.spell(d)
+            self.emit("api add " + s)
+            self.watched.append(s)
+        while len(self.steps) < n:
+            x = r.random()
+            if self.held and r.random() < 0.3:
+                self.emit("release")
+                self.held = False
+                self.stats["bursts"] += 1
+            elif x < w_hold and not self.held:
+                self.emit("hold")
+                self.held = True
+            elif x < w_hold + w_api:
+                self.api_step()
+            else:
+                self.fs_step(valid=r.random() < 0.9)
+        if self.held:
+            self.emit("release")
+        if prof == "c17" or r.random() < 0.3:
+            if r.random() < 0.5:
+                for w in list(self.watched):
+                    self.emit("api remove " + (w if r.random() < 0.5 else canon(w)))
+                self.watched = []
+            if r.random() < 0.7:
+                self.emit("api close")
+                if r.random() < 0.3:
+                    self.emit("api add d0")
+                    self.emit("api list")
+        return self.steps
+
+
+def gen_histories(seed, count, length, stats, tag="r"):
+    rng = random.Random(seed)
+    out = []
+    for i in range(count):
+        prof = rng.choices(["mix", "c17", "c18"], [0.3, 0.35, 0.35])[0]
+        g = Gen(rng, prof, stats)
+        steps = g.generate(rng.randrange(max(6, length // 2), length + 1))
+        out.append(("%s%04d" % (tag, i), prof, steps))
+        stats["profiles"][prof] = stats["profiles"].get(prof, 0) + 1
+    return out
+
+
+def new_stats():
+    return {"ops": {}, "spellings": {}, "profiles": {}, "bursts": 0}
+
+
+# targeted corpus: minimal histories of the defects found so far (run first on every check) plus plain regressions
+CORPUS = [
+    ("k-close-leak", ["fs create f", "api add f", "api close"]),
+    ("k-close-leak-dir", ["fs mkdir d", "fs create d/a", "api add d", "api close"]),
+    ("k-unclean", ["fs mkdir d", "api add ./d", "api remove d"]),
+    ("k-fifo-add", ["fs mkfifo p", "api add p", "api remove p"]),
+    ("k-link-target-watched", ["fs create f", "fs symlink f l", "api add f", "api add l", "api remove l", "api remove f"]),
+    ("k-link-remove", ["fs create f", "fs symlink f l", "api add l", "api remove l"]),
+    ("k-link-target-deleted", ["fs create f", "fs symlink f l", "api add l", "fs unlink f"]),
+    ("k-dir-rename", ["fs mkdir d", "fs create d/a", "api add d", "fs rename d e", "fs write e/a"]),
+    ("k-fifo-entry", ["fs mkdir d", "api add d", "fs mkfifo d/p", "fs create d/x"]),
+    ("k-dangling-entry", ["fs mkdir d", "api add d", "hold", "fs symlink nowhere d/a", "fs create d/b", "release", "fs create d/c"]),
+    ("k-symlink-entry-rm", ["fs mkdir d", "fs create d/f", "fs symlink f d/l", "api add d", "fs unlink d/l"]),
+    ("k-failed-add", ["fs mkdir d", "fs create d/a", "fs symlink nowhere d/z", "api add d"]),
+    ("p-plain", ["fs mkdir d", "fs create d/pre", "api add d", "fs create d/a", "fs write d/a", "fs chmod d/a", "fs rename d/a d/b",
+                 "fs unlink d/b", "fs create d/b", "fs mkdir d/s", "fs rmdir d/s", "api list", "api remove d", "api list"]),
+    ("p-burst", ["fs mkdir d", "api add d", "hold", "fs create d/a", "fs create d/b", "fs create d/c", "fs unlink d/b", "release",
+                 "hold", "fs unlink d/a", "fs create d/a", "release", "fs rmdir d"]),
+    ("p-dir-removed", ["fs mkdir d", "fs create d/a", "fs create d/b", "api add d", "fs unlink d/a", "fs unlink d/b", "fs rmdir d", "api list"]),
+    ("p-symlinked-dir", ["fs mkdir d", "fs symlink d l", "api add l", "fs create d/a", "fs write d/a", "fs unlink d/a"]),
+    ("p-two-dirs", ["fs mkdir d0", "fs mkdir d1", "fs create d0/a", "api add d0", "api add d1//", "fs rename d0/a d1/a", "fs create d0/a",
+                    "fs rename d0/a d1/a", "api remove d1", "api remove d0"]),
+]
+
+
+def write_histories(path, hists):
+    with open(path, "w") as f:
+        for hid, prof, steps in hists:
+            f.write("H %s profile=%s\n" % (hid, prof))
+            for s in steps:
+                f.write(s + "\n")
+
+
+# ------------------------------------------------------------------ running harness + driver
+
+def run_pipeline(kqh, drv, hists, name, timeout=900):
+    """returns dict: obs_path, lines per history, driver output parsed"""
+    wd = os.path.join(KQB, "run")
+    os.makedirs(wd, exist_ok=True)
+    hp, op = os.path.join(wd, name + ".hist"), os.path.join(wd, name + ".obs")
+    write_histories(hp, hists)
+    rc, out = sh("timeout %d %s -hist %s > %s" % (timeout, kqh, hp, op), timeout=timeout + 30)
+    if rc != 0:
+        return {"error": "harness rc=%d %s" % (rc, out[-1500:]), "obs": op}
+    rc, dout = sh("timeout %d %s %s" % (timeout, drv, op), timeout=timeout + 30)
+    res = {"obs": op, "model": [], "env": [], "spec": [], "summary": "", "diverging": set(), "error": None}
+    if rc != 0 and "SUMMARY" not in dout:
+        res["error"] = "driver rc=%d %s" % (rc, dout[-1500:])
+        return res
+    for l in dout.split("\n"):
+        if l.startswith("MISMATCH MODEL"):
+            m = re.match(r"MISMATCH MODEL (\S+) hist=(\S+) step=(\d+) field=(\S+) (.*)", l)
+            if m:
+                res["model"].append({"prop": m.group(1), "hist": m.group(2), "step": int(m.group(3)), "field": m.group(4), "text": m.group(5)})
+        elif l.startswith("MISMATCH ENV"):
+            m = re.match(r"MISMATCH ENV hist=(\S+) step=(\d+) field=(\S+) (.*)", l)
+            if m:
+                res["env"].append({"hist": m.group(1), "step": int(m.group(2)), "field": m.group(3), "text": m.group(4)})
+        elif l.startswith("MISMATCH SPEC"):
+            m = re.match(r"MISMATCH SPEC (\S+) hist=(\S+) step=(\d+) clause=(\S+) detail=\[(.*?)\] at: (.*)", l)
+            if m:
+                res["spec"].append({"prop": m.group(1), "hist": m.group(2), "step": int(m.group(3)), "clause": m.group(4),
+                                    "detail": m.group(5), "at": m.group(6)})
+        elif l.startswith("MISMATCH MSPEC"):
+            pass
+        elif l.startswith("SUMMARY"):
+            res["summary"] = l
+    return res
+
+
+def read_obs(path):
+    """{hist id: [annotated lines]}"""
+    out, cur = {}, None
+    for l in open(path):
+        l = l.rstrip("\n")
+        if l.startswith("H "):
+            cur = l.split()[1]
+            out[cur] = [l]
+        elif cur is not None:
+            out[cur].append(l)
+    return out
+
+
+# ------------------------------------------------------------------ minimisation and classification
+
+def ddmin(steps, fails, budget=40):
+    """delta debugging over steps; fails(list of candidate step-lists) -> list of bool (batch evaluation)"""
+    n = 2
+    steps = list(steps)
+    rounds = 0
+    while len(steps) >= 2 and rounds < budget:
+        rounds += 1
+        size = max(1, len(steps) // n)
+        chunks = [steps[i:i + size] for i in range(0, len(steps), size)]
+        cands = []
+        for i in range(len(chunks)):
+            cands.append([s for j, c in enumerate(chunks) if j != i for s in c])   # complements
+        res = fails(cands)
+        hit = next((c for c, r in zip(cands, res) if r), None)
+        if hit is not None:
+            steps = hit
+            n = max(n - 1, 2)
+        else:
+            if n >= len(steps):
+                break
+            n = min(len(steps), n * 2)
+    return steps
+
+
+def simplify_args(steps, fails):
+    """replace unclean / absolute spellings by the clean relative one where the failure persists"""
+    steps = list(steps)
+    for i, s in enumerate(steps):
+        w = s.split()
+        if w[0] == "api" and len(w) == 3:
+            c = pclean(w[2])
+            if c.startswith("/T/"):
+                c = c[3:]
+            if c != w[2]:
+                cand = steps[:i] + ["%s %s %s" % (w[0], w[1], c)] + steps[i + 1:]
+                if fails([cand])[0]:
+                    steps = cand
+    return steps
+
+
+def features(steps):
+    """shape of a (minimal) history: which ingredients it has (a small replay of the tree, add by add)"""
+    kinds, f = {}, set()      # path -> 'f' | 'd' | 'p' | 'l' ; link targets under path+'@'
+    adds, adddirs = [], set()
+    holding, renamed_away = False, set()
+
+    def target(p):
+        t = kinds.get(p + "@")
+        return t
+
+    def entry(p):
+        par = os.path.dirname(p) or "."
+        if par not in adddirs:
+            return
+        k = kinds.get(p)
+        if k == "p":
+            f.add("fifo-entry")
+        elif k == "l":
+            f.add("symlink-entry" if target(p) in kinds or target(p) == "." else "dangling-symlink-entry")
+
+    def move(a, b):
+        for q in [q for q in list(kinds) if q == b or q.startswith(b + "/") or q == b + "@"]:
+            del kinds[q]
+        for q in [q for q in list(kinds) if q == a or q.startswith(a + "/") or q == a + "@"]:
+            kinds[b + q[len(a):]] = kinds.pop(q)
+
+    for s in steps:
+        w = s.split()
+        if w[0] == "fs" and len(w) >= 3:
+            p = w[-1]
+            par = os.path.dirname(p) or "."
+            if w[1] == "mkfifo":
+                kinds.setdefault(p, "p")
+                entry(p)
+            elif w[1] == "symlink" and p not in kinds:
+                tgt = w[2]
+                base = os.path.dirname(p)
+                kinds[p] = "l"
+                kinds[p + "@"] = canon(tgt if tgt.startswith("/") else (base + "/" + tgt if base else tgt))
+                entry(p)
+            elif w[1] == "mkdir":
+                kinds.setdefault(p, "d")
+            elif w[1] in ("create", "link"):
+                kinds.setdefault(p, "f")
+                if holding and p in renamed_away:
+                    f.add("rename-then-recreate-in-burst")
+            elif w[1] == "rename" and len(w) == 4:
+                a, b = w[2], w[3]
+                if a not in kinds:
+                    continue
+                if a in adds and kinds.get(a) == "d":
+                    f.add("watched-dir-renamed")
+                if b in adds and kinds.get(b) in ("f", "l", "p"):
+                    f.add("watched-file-overwritten")
+                for q in (a, b):
+                    if kinds.get(q) == "l" and (os.path.dirname(q) or ".") in adddirs:
+                        f.add("symlink-entry")
+                if holding:
+                    renamed_away.add(a)
+                move(a, b)
+                entry(b)
+            elif w[1] in ("unlink", "rmdir"):
+                if kinds.get(p) == "l" and par in adddirs:
+                    f.add("symlink-entry")
+                kinds.pop(p, None)
+                kinds.pop(p + "@", None)
+        elif w[0] == "api" and len(w) == 3:
+            a = w[2]
+            c = canon(a)
+            if a != pclean(a):
+                f.add("unclean-spelling")
+            if w[1] == "add":
+                k = kinds.get(c)
+                if k == "p":
+                    f.add("fifo-added")
+                elif k == "l":
+                    f.add("symlink-added")
+                    t = target(c)
+                    if kinds.get(t) == "d":
+                        adddirs.add(t)
+                elif k is None and c != ".":
+                    f.add("missing-path-added")
+                adds.append(c)
+                if k == "d" or c == ".":
+                    adddirs.add(c)
+                for q in list(kinds):
+                    if not q.endswith("@"):
+                        entry(q)
+        elif w[0] == "hold":
+            holding = True
+        elif w[0] == "release":
+            holding = False
+            renamed_away.clear()
+    if any(s == "api close" for s in steps):
+        f.add("close")
+    return sorted(f)
+
+
+CAUSES = ["fifo-added", "symlink-added", "fifo-entry", "dangling-symlink-entry", "symlink-entry",
+          "watched-dir-renamed", "watched-file-overwritten", "rename-then-recreate-in-burst", "unclean-spelling"]
+
+
+def spec_key(clause, detail, steps):
+    """stable key of a violation.  The MINIMAL history decides: when it needs one of the known defect ingredients
+    (CAUSES, most specific first) the key is that ingredient — one key per root cause, whatever clause it surfaces in;
+    a minimal history with none of them is keyed by the failing clause ('<clause>:plain'), so that a violation with a new
+    cause is never taken for a listed one."""
+    fs_ = features(steps)
+    if clause == "close-releases-all":
+        return "close-leaks-descriptors" if "vnode" in detail else "close-leaks-kqueue-or-pipe"
+    cause = next((c for c in CAUSES if c in fs_), None)
+    if clause == "remove-of-unadded-succeeds":
+        return "remove-of-unadded-succeeds"
+    return cause if cause else clause + ":plain"
+
+
+class Ctx:
+    """built tools + counters shared by the minimiser"""
+
+    def __init__(self, kqh, drv):
+        self.kqh, self.drv, self.n = kqh, drv, 0
+        self.runs = 0
+
+    def eval_batch(self, cands, name="mini"):
+        """run candidate step lists; returns per candidate the parsed (model, spec) mismatch lists"""
+        hs = [("c%d" % i, "mini", c) for i, c in enumerate(cands)]
+        self.runs += len(cands)
+        r = run_pipeline(self.kqh, self.drv, hs, name)
+        out = [{"model": [], "spec": [], "env": []} for _ in cands]
+        if r.get("error"):
+            return out
+        for kind in ("model", "spec", "env"):
+            for m in r[kind]:
+                out[int(m["hist"][1:])][kind].append(m)
+        return out
+
+    def minimise(self, steps, pred):
+        """pred(result dict) -> bool"""
+        fails = lambda cands: [pred(x) for x in self.eval_batch(cands)]
+        steps = ddmin(steps, fails)
+        steps = simplify_args(steps, fails)
+        steps = ddmin(steps, fails, budget=10)
+        return steps
+
+
+def annotate(ctx, steps, name="final"):
+    """run one history; returns (annotated lines, result dict)"""
+    r = run_pipeline(ctx.kqh, ctx.drv, [("m0", "replay", steps)], name)
+    lines = read_obs(r["obs"]).get("m0", []) if not r.get("error") else []
+    return lines, r
+
+
+def triage_spec(ctx, hists, res, prop, max_per_group=3, max_total=60):
+    """minimise spec violations of one property; returns {key: {clause, detail, steps, lines, count}}"""
+    by_hist = {h[0]: h[2] for h in hists}
+    groups, order = {}, []
+    for m in res["spec"]:
+        if m["prop"] != prop:
+            continue
+        # rough pre-classification: clause + the features of the history prefix up to the violating step
+        pre = features(by_hist[m["hist"]][:m["step"]])
+        g = (m["clause"], tuple(pre))
+        if g not in groups:
+            groups[g] = []
+            order.append(g)
+        if not any(x["hist"] == m["hist"] for x in groups[g]):
+            groups[g].append(m)
+    found, total = {}, 0
+    # smallest prefixes first: they minimise fastest and are the most specific
+    for g in sorted(order, key=lambda g: (len(g[1]), g)):
+        for m in sorted(groups[g], key=lambda m: m["step"])[:max_per_group]:
+            if total >= max_total:
+                break
+            clause = m["clause"]
+            steps = by_hist[m["hist"]][:m["step"]]
+            pred = lambda x, c=clause: any(s["clause"] == c for s in x["spec"])
+            mini = ctx.minimise(steps, pred)
+            total += 1
+            lines, r = annotate(ctx, mini)
+            hit = next((s for s in r.get("spec", []) if s["clause"] == clause), None)
+            if hit is None:
+                continue
+            key = spec_key(clause, hit["detail"], mini)
+            if key not in found or len(mini) < len(found[key]["steps"]):
+                found[key] = {"clause": clause, "detail": hit["detail"], "steps": mini, "lines": lines,
+                              "from": m["hist"], "count": found.get(key, {}).get("count", 0)}
+            found[key]["count"] += 1
+    return found
